@@ -179,6 +179,18 @@ func inlineTemplate(r *Runner, dep map[string]any) []any {
 }
 
 func (m *C16Monitor) AfterPass(r *Runner, pv *PassView) error {
+	if pv.P.Controller == engine.CtrlPackage && pv.Owner != nil && pv.P.Crashed {
+		// a pass that dies after writing the deployment has not recorded the hash of what it deployed either
+		for _, c := range pv.Calls {
+			if c.Actor == "pko" && c.IsWrite() && !c.DryRun && c.Changed() && (c.Key.Kind == "ObjectDeployment" || c.Key.Kind == "ObjectSlice") {
+				if m.unrecorded == nil {
+					m.unrecorded = map[string]bool{}
+				}
+				m.unrecorded[engine.UID(pv.Owner)] = true
+				r.Labels["c16-deployment-written-but-hash-not-recorded"] = true
+			}
+		}
+	}
 	if pv.P.Controller != engine.CtrlPackage || pv.Owner == nil || pv.P.Crashed {
 		return nil
 	}
